@@ -289,7 +289,7 @@ FIXED_TREE = [[["r"], "D"], [["r", "x.c"], "F"], [["r", "z.h"], "F"], [["r", "a"
               [["r", "build", "a", "x.c"], "F"], [["r", "lnk.c"], ["L", "a/x.c"]], [["r", "ld"], ["L", "a"]]]
 ATOMS = ["x.c", "/x.c", "*.c", "a/", "/a", "a/b/", "b/", "build/", "build", "a/x.c", "a/b", "a/**", "**/x.c", "a/**/x.c",
          "*", "*/", "/*", "z.?", "[xz].c", "a/*", "*/x.c", "b/x.c", "**/b/", "/build/a", "a\\/x.c", "x.c ", "\\x.c", "**",
-         "a/**/"]
+         "a/**/", "z.h\\"]
 
 
 def fixed_queries():
@@ -304,7 +304,7 @@ class C09(Check):
             "directory) x 0-5 gitignore lines built from the names in the tree (basename, anchored, directory-only, *, ?, "
             "[..], ** leading/inner/trailing, escapes, comments, negation, trailing blanks) x up to ~12 path spellings "
             "(absolute, relative to a random cwd, with '..' and '.', through directory links); an exhaustive block of all "
-            "lists of <= 2 (quick) / <= 3 (thorough, subset) lines over 29 atoms with optional negation on a fixed 3-level tree; "
+            "lists of <= 2 (quick) / <= 3 (thorough, subset) lines over 30 atoms with optional negation on a fixed 3-level tree; "
             "a malformed stream (random pattern text, stray backslashes/brackets, overlapping / missing / file code-base "
             "directories, link loops). Non-trivial = patterns present, at least one asked source file is a member and at "
             "least one source file below a code-base directory is not.")
@@ -312,7 +312,7 @@ class C09(Check):
         "pathspec 0.12.1 GitIgnoreSpec, pathlib.Path.resolve/rglob/is_relative_to and os.path.realpath are modelled, not verified",
         "pattern lines are inside the supported grammar (Lib/C09_glob.v: printable ASCII, no leading blank, no bracket "
         "expression beyond plain characters/ascending alphanumeric ranges, no run of three or more stars as a segment, no "
-        "dangling backslash); other lines are counted as unsupported",
+        "tab or other control character); other lines are counted as unsupported",
         "code-base directories are existing directories, none inside another; the tree has no symbolic-link cycle "
         "(cases outside are compared I vs M only)",
         "the file system does not change between construction and queries",
@@ -363,7 +363,7 @@ class C09(Check):
         for a in ATOMS:                 # overlapping code-base directories (outside the quantifier: I vs M only)
             out.append([FIXED_TREE, [], ["/r", "/r/a"], [a], qs])
             out.append([FIXED_TREE, [], ["/r/a", "/r"], [a], qs])
-        self.stats["exhaustive"] = {"cases": len(lists), "bound": "all lists of <= 2 lines over 29 atoms (second line plain or negated) "
+        self.stats["exhaustive"] = {"cases": len(lists), "bound": "all lists of <= 2 lines over 30 atoms (second line plain or negated) "
                                     + ("and a third over 11 atoms with 4 sign patterns " if not quick else "(plain pairs: one third) ")
                                     + "on the fixed tree, 15 queries each"}
         n_valid = 700 if quick else 12000
